@@ -194,8 +194,9 @@ impl<'a> Ctx<'a> {
         let mut acc: BTreeSet<String> = BTreeSet::new();
         let mut aliases: BTreeMap<String, String> = BTreeMap::new();
         self.assigned_block(stmts, &mut bound, &mut acc, &mut aliases);
-        let mut v: Vec<String> = acc.into_iter().filter(|n| self.lookup(n).is_some()).collect();
-        v.sort_by_key(|n| self.decl_index(n));
+        // loop-carried variables in alphabetical order (BTreeSet order): deterministic and independent of
+        // where a variable happened to be re-declared
+        let v: Vec<String> = acc.into_iter().filter(|n| self.lookup(n).is_some()).collect();
         v
     }
 
